@@ -672,7 +672,7 @@ func init() {
 			names = append(names, a.Name)
 		}
 		r.Set("alphabet", names)
-		r.Set("samples", map[string]interface{}{"shortest": toIface(st.Shortest), "longest": toIface(st.Longest), "per_level": st.PerLevel})
+		r.Set("samples", []interface{}{map[string]interface{}{"shortest_paths": toIface(st.Shortest)}, map[string]interface{}{"longest_paths": toIface(st.Longest)}, map[string]interface{}{"new_states_per_level": st.PerLevel}})
 		r.Set("rule", "E1 BFS with state deduplication: every sequence <= max_depth of the alphabet, each call executed on an engine rebuilt by replay and, in lock-step, on the plain Go reference model (slice of documents + index definitions); the canonical observation of every call (error class, counts, ids, returned documents) and the complete contents of every collection and its index definitions after every call must be equal")
 		r.Assume("the reference model is my reading of MongoDB semantics restricted to the operator domains of DESIGN 8; errors are compared by class (ok / duplicate key / other)", "CreateCollection on an existing collection and Drop of a missing one succeed (lungo's documented behaviour)", "multi-document updates are checked for uniqueness on the resulting collection as a whole")
 		if st.States < 50 || st.Outcomes < 60 {
